@@ -474,6 +474,16 @@ def direct_run(case, obs):
         ns = obs['results'].get('networkSize')
         if ns is not None and ns != len(fin['nodes']):
             bad('reported-network-size-wrong', reported=ns, order=len(fin['nodes']))
+        # "nodes enter and leave that model's compartments consistently": the coupled model reports, per compartment, the
+        # number of nodes of the FINAL network that are in it (deleted nodes are in none)
+        if combo != 'alone' and fin.get('comps') is not None:
+            for c in (SIR.SUSCEPTIBLE, SIR.INFECTED, SIR.REMOVED):
+                rep = obs['results'].get(c)
+                truth = sum(1 for n in fin['nodes'] if fin['comps'].get(n) == c)
+                if rep is not None and rep != truth:
+                    bad('reported-compartment-size-wrong', compartment=c, reported=rep, truth=truth, order=len(fin['nodes']),
+                        deletions=dels, combination=combo)
+                    break
     seen = {}
     for x in v:
         seen.setdefault(x['signature'], x)
